@@ -3,6 +3,7 @@ package types
 import (
 	errorsmod "cosmossdk.io/errors"
 	sdk "github.com/cosmos/cosmos-sdk/types"
+	"github.com/ethereum/go-ethereum/common"
 
 	stakingtypes "github.com/cosmos/cosmos-sdk/x/staking/types"
 )
@@ -40,6 +41,29 @@ func (info *OperatorInfo) ValidateBasic() error {
 			ErrParameterInvalid,
 			"ValidateBasic: approve address is empty",
 		)
+	}
+	// the client chain earning addresses have to pass what the genesis validation demands of
+	// them, otherwise an operator could be registered that the chain's own export rejects
+	if info.ClientChainEarningsAddr != nil {
+		lzIDs := make(map[uint64]struct{}, len(info.ClientChainEarningsAddr.EarningInfoList))
+		for _, data := range info.ClientChainEarningsAddr.EarningInfoList {
+			if data == nil {
+				return errorsmod.Wrap(ErrParameterInvalid, "ValidateBasic: nil client chain earning info")
+			}
+			if _, found := lzIDs[data.LzClientChainID]; found {
+				return errorsmod.Wrapf(
+					ErrParameterInvalid,
+					"ValidateBasic: duplicate lz client chain id %d", data.LzClientChainID,
+				)
+			}
+			lzIDs[data.LzClientChainID] = struct{}{}
+			if !common.IsHexAddress(data.ClientChainEarningAddr) {
+				return errorsmod.Wrapf(
+					ErrParameterInvalid,
+					"ValidateBasic: invalid client chain earning address %s", data.ClientChainEarningAddr,
+				)
+			}
+		}
 	}
 	// TODO(Chuang): should the approve address be bech32 validated?
 	if err := info.Commission.Validate(); err != nil {
